@@ -9,7 +9,13 @@
 //! -1..=17 under three module bases (0, 0x1000, 2^64-16).  The expected answer is a *linear
 //! scan over the generator's own record list* (never over what the parser built).
 //!
-//! A second space drives the same lookups end to end through `minidump_unwind::walk_stack`
+//! Space `nests` looks inside one FUNC with a larger menu: a three-level INLINE nest with the
+//! origin id of every subset of its levels undefined (a level without INLINE_ORIGIN yields no
+//! frame for that level only), an eight-level nest, and STACK WIN records that split the FUNC,
+//! start before / inside it, leave its entry uncovered or reach beyond it (the parameter size is
+//! that of the record covering the *address*).
+//!
+//! Space `stackframe` drives the same lookups end to end through `minidump_unwind::walk_stack`
 //! (module lookup, `Symbolizer`, `fill_source_line_info`) and checks the `StackFrame` fields,
 //! with inline frames innermost first.
 use breakpad_symbols::{FrameSymbolizer, SimpleModule, SymbolFile};
@@ -760,14 +766,15 @@ fn main() {
         let mut def = CheckDef::new(
             "C11",
             "exploration",
-            "bounded-exhaustive: every symbol file of the menu product {FUNC f0 at 1|3 size 0|1|3|6} x {FUNC f1 at 0..10 size 0|1|2|4} x {8 line tables: sizes 0..6, line numbers 0,1,2,5,6,9, nested, duplicate, unknown file} x {11 INLINE sets: depth 0..2, multi-range, origin outside/inside a FUNC block/undefined, call line 0/1/2, unknown call file, same-depth overlap, empty range, duplicate key, depth gap} x {2 sub-record sets of f1} x {9 PUBLIC sets} x {4 STACK WIN sets} (thorough: x {third FUNC: none | 8 placements} x {file order of f0,f1}), parsed by the real parser and queried by SymbolFile::fill_symbol at offsets -1..=17 under module bases 0, 0x1000, 2^64-16; expected = linear scan over the generator's records. Second space: one-FUNC files through walk_stack/Symbolizer into StackFrame. evaluations = lookups; distinct_nontrivial = distinct file shapes (menu choices x relative position of the FUNC ranges: before / touching / overlapping / nested / equal / empty) with at least one symbolicated address (+ distinct (file, address) pairs symbolicated in the StackFrame space).",
+            "bounded-exhaustive: every symbol file of the menu product {FUNC f0 at 1|3 size 0|1|3|6} x {FUNC f1 at 0..10 size 0|1|2|4} x {8 line tables: sizes 0..6, line numbers 0,1,2,5,6,9, nested, duplicate, unknown file} x {11 INLINE sets: depth 0..2, multi-range, origin outside/inside a FUNC block/undefined, call line 0/1/2, unknown call file, same-depth overlap, empty range, duplicate key, depth gap} x {2 sub-record sets of f1} x {9 PUBLIC sets} x {4 STACK WIN sets} (thorough: x {third FUNC: none | 8 placements} x {file order of f0,f1}), parsed by the real parser and queried by SymbolFile::fill_symbol at offsets -1..=17 under module bases 0, 0x1000, 2^64-16; expected = linear scan over the generator's records. Space `nests` (what happens inside one FUNC): {f0 at 1|3 size 0|1|3|6} x {8 line tables} x {19 INLINE sets = the 11 above + the three-level nest (3 levels at a+1, 2 at a and a+3, 1 at a+2) with the origin id of every non-empty subset of its levels defined nowhere (outermost / middle / innermost / any two / all three dangling) + an eight-level nest (depth 0..7) whose levels 3 and 7 dangle} x {10 STACK WIN sets = the 4 above + FUNC split over two frame-data records with different sizes, FPO at the entry and frame data only further in, a record starting inside the FUNC with nothing at its entry and reaching beyond it, a record starting before the FUNC and covering only its first byte, three pieces of two types, pieces with gaps and the entry uncovered} x {f1 far behind with own sub-records | touching f0's end | inside f0} x {PUBLIC none | inside f0 | right behind f0}, same lookups and oracle. Space `stackframe`: one-FUNC files (all 19 INLINE sets, 4 STACK WIN sets - thorough: all 10) through walk_stack/Symbolizer into StackFrame. evaluations = lookups; distinct_nontrivial = distinct file shapes (menu choices x relative position of the FUNC ranges: before / touching / overlapping / nested / equal / empty) with at least one symbolicated address (+ distinct (file, address) pairs symbolicated in the StackFrame space).",
         );
         def.assumptions = vec![
             "exact comparison is made when no two valid FUNC ranges intersect, PUBLIC addresses are distinct, STACK WIN records of one type do not intersect, and within the FUNC covering the address no two line records intersect and no two same-depth INLINE ranges intersect; otherwise only the statement's weaker promises are checked (reported FUNC contains the address; reported PUBLIC is the nearest at or below it and is not cut off by a FUNC that overlaps nothing; a FUNC that overlaps nothing is reported for its addresses; source line / inline frames come from records of the reported FUNC covering the address; bases never exceed the instruction)".into(),
             "an INLINE range of size 0 written inside (or at the start of) another range of the same depth and FUNC is treated as overlapping: the format does not define it, and the (depth,address) search then hides the enclosing range".into(),
             "a PUBLIC exactly at the start address of the nearest preceding FUNC counts as cut off by that FUNC (the FUNC's range lies between the PUBLIC and the address)".into(),
             "inline nesting is the chain of consecutive depths 0,1,2,.. that cover the address (a depth-n range without a covering depth-(n-1) range is not part of the chain), as the INLINE record documentation defines nesting".into(),
-            "FILE / INLINE_ORIGIN ids that are not defined yield no file name / no frame for that level (not an error)".into(),
+            "FILE / INLINE_ORIGIN ids that are not defined yield no file name / no frame for that level (not an error); an undefined origin affects that level only: the levels nested inside it and outside it are reported as if it were defined (fill_symbol: every level is looked up in inline_origins on its own; the call site of the next deeper level is attached to the next defined name)".into(),
+            "parameter size = that of the STACK WIN record covering the *address* (frame data before FPO), whether or not that record starts at, spans or stays inside the FUNC; the FUNC's own value only if no STACK WIN record covers the address".into(),
         ];
         def.extra.insert("module_bases".into(), json!(["0x0", "0x1000", "0xfffffffffffffff0"]));
         def.extra.insert("offsets".into(), json!("-1..=17 relative to the module base (wrapping)"));
